@@ -375,6 +375,19 @@ pub fn generate(args: &Args) -> Vec<String> {
         };
         l.push(format!("num lerp {ty} {a} {b} {}", s.to_bits()));
     }
+    // (3b') the edge of the exact range itself: every pair within distance 3 of ±2^23 (and of ±2^22, ±2^24), every scalar
+    for ty in ["i32", "u32", "i64", "u64"] {
+        let (lo, hi) = range(ty);
+        for edge in [1i128 << 23, -(1i128 << 23), 1 << 22, -(1i128 << 22), 1 << 24] {
+            for da in -3i128..=3 {
+                for db in -3i128..=3 {
+                    let (a, b) = (edge + da, edge + db);
+                    if a < lo || a > hi || b < lo || b > hi { continue; }
+                    for s in &scalars { l.push(format!("num lerp {ty} {a} {b} {}", s.to_bits())); }
+                }
+            }
+        }
+    }
     for _ in 0..n / 10 {
         let v: Vec<i64> = (0..6).map(|_| rng.range(-(1 << 23), 1 << 23)).collect();
         let s = (rng.next() >> 40) as f32 / (1u64 << 24) as f32;
